@@ -163,6 +163,8 @@ type FnCtx struct {
 	inlinedExt  map[string]bool
 	axiomsUsed  []string
 	coverCond   *Term
+	unfolding   map[string]int
+	revealed    map[string]bool
 }
 
 type ghostField struct {
